@@ -293,11 +293,41 @@ def c15c(tree, ob):
             table['absent'] = src(val)
         else:
             raise AnalysisError('C15.c: unrecognised assignment of the match result: ' + src(st))
+    # whether the certificate carries identifiers of the kind is decided from the certificate alone, never from the reference:
+    # an empty / absent reference with identifiers present must come out as "mismatch" (False), not "absent" (None)
+    for (st, val) in norm.local_assigns(fm.func, 'cert_ids'):
+        if isinstance(val, ast.Constant) and val.value is None:
+            continue
+        facts = fm.facts(st) or frozenset()
+        if any(norm.mentions(t, ['ref_id']) for (t, p) in facts):
+            ob.violate(SESS, 'match_id', 'cert_ids collected under a condition on ref_id', 'the identifiers of the certificate are only read when a reference exists: a certificate identifier '
+                       'with an empty announced node id is reported as "absent" instead of "contradicting", and the session is accepted', st)
     want = {'match': 'ref_id', 'mismatch': 'False', 'absent': 'None'}
     if table != want:
         ob.violate(SESS, 'match_id', 'result table {}'.format(table), 'match_id does not return (matched id / False when names present but none equal / None when no names): {}'.format(table), fm.func)
     else:
         ob.note('match_id tail: present&equal -> id, present&unequal -> False, absent -> None')
+
+
+def funnel_order(tree, ob):
+    ''' In the reject/terminate funnel of recv_message no earlier except clause may catch the class of a later one
+    (resolved through the repository class hierarchy): otherwise a termination request is answered as a rejection. '''
+    fv = FuncView(tree, SESS, 'Messenger.recv_message')
+    for t in [t for t in walk_local(fv.func) if isinstance(t, ast.Try)]:
+        names = []
+        for h in t.handlers:
+            for nm in handler_names(h):
+                names.append((nm.split('.')[-1] if nm else None, h))
+        for i, (early, he) in enumerate(names):
+            for (late, hl) in names[i + 1:]:
+                if early is None or late is None or not tree.has_class(SESS, late):
+                    continue
+                bases = [c.name for (_r, c) in tree.mro(SESS, late)]
+                if early in bases[1:] or early in ('Exception', 'BaseException'):
+                    ob.violate(SESS, fv.qual, 'except {} before except {}'.format(early, late), '{} is a subclass of {} and is caught by the earlier clause: a failed authentication is answered with '
+                               'MSG_REJECT and the session stays up instead of SESS_TERM(contact failure)'.format(late, early), he)
+                else:
+                    ob.site(SESS, hl, 'except {} is not shadowed by except {}'.format(late, early))
 
 
 def c15d(tree, ob):
@@ -317,6 +347,7 @@ def c15d(tree, ob):
             ob.violate(SESS, fv.qual, src(c), 'session-start callback can run before peer authentication', c)
         else:
             ob.site(SESS, c, 'session-start callback after authentication')
+    funnel_order(tree, ob)
     hs = [h for h in walk_local(fv.func) if isinstance(h, ast.ExceptHandler) and any(nm and nm.endswith('TerminateError') for nm in handler_names(h))]
     h = one(hs, 'TerminateError handler', ob)
     terms = method_calls(h, 'send_sess_term', 'self')
